@@ -95,6 +95,36 @@ def run(ctx):
         ab = R.add(A + Bq)
         R.rel("cat", ["C14"], a=a, b=b, ab=ab)
         npairs += 1
+    # long runs of one statement - including statements gosk only reports (no handler) or reports although it assembles them -
+    # followed by an ordinary tail: the tail's bytes do not depend on how many statements, or diagnostics, came before
+    nrep = 0
+    for bits in (16, 32):
+        pre = [{"k": "bits", "v": 32}] if bits == 32 else []
+        w = 16 if bits == 16 else 32
+        m32 = {"t": "m", "w": 32, "aw": 32, "b": 3, "x": -1, "sc": 1, "d": 8, "hd": 1}
+        pool = [{"k": "ins", "mn": "XCHG", "ops": [{"t": "r", "w": 16, "n": 0}, {"t": "r", "w": 16, "n": 3}]},
+                {"k": "ins", "mn": "TEST", "ops": [{"t": "r", "w": 8, "n": 0}, {"t": "i", "v": 1, "sty": "d"}]},
+                {"k": "ins", "mn": "STOSB", "ops": []},
+                {"k": "ins", "mn": "PUSH", "ops": [m32]}, {"k": "ins", "mn": "POP", "ops": [m32]},
+                {"k": "ins", "mn": "MOV", "ops": [{"t": "r", "w": w, "n": 1}, {"t": "i", "v": 2, "sty": "d"}]},
+                {"k": "data", "mn": "DB", "items": [{"t": "e", "e": {"o": "/", "a": {"o": "n", "v": 1}, "b": {"o": "n", "v": 0}}}]},
+                {"k": "ins", "mn": "MOV", "ops": [{"t": "r", "w": 8, "n": 0}, {"t": "l", "nm": "undefined_name", "add": 0}]}]
+        tail = [{"k": "ins", "mn": "MOV", "ops": [{"t": "r", "w": w, "n": 0}, {"t": "i", "v": 1, "sty": "d"}]}, db(0x55, 0xAA), {"k": "ins", "mn": "RET", "ops": []}]
+        for s_ in pool:
+            for n in ((1, 19, 20, 21, 64) if quick else (1, 2, 9, 10, 11, 19, 20, 21, 32, 33, 64, 100, 256)):
+                a = R.add(pre + [s_] * n)
+                b = R.add(pre + tail)
+                ab = R.add(pre + [s_] * n + tail)
+                R.rel("catany", ["C14"], a=a, b=b, ab=ab)
+                nrep += 1
+        # and mixed: every pool statement once, n times over
+        for n in (3, 8):
+            a = R.add(pre + pool * n)
+            b = R.add(pre + tail)
+            ab = R.add(pre + pool * n + tail)
+            R.rel("catany", ["C14"], a=a, b=b, ab=ab)
+            nrep += 1
+    npairs += nrep
     R.run()
     return relcheck.finish(ctx, "C14", R, None,
                            "seeded label-free, position-independent statement sequences of length 1..4 (instruction and data forms of spec/Gen_Prog.tla, both modes): out(A;B) = out(A) o out(B) for both orders, "
